@@ -470,6 +470,13 @@ func replay(file string, keep int) {
 		case enc(docOf(out[5])) != enc(tr.Obs.Keys):
 			what, exp, got = "keys", tr.Obs.Keys, out[5]
 		}
+		if g, isStr := got.(string); isStr && strings.HasPrefix(g, "ERROR") { // the engine refused or crashed
+			if strings.Contains(g, "panic") {
+				what += "-panic"
+			} else {
+				what += "-error"
+			}
+		}
 		if what != "" {
 			sig := fmt.Sprintf("A|%s|%s|%s", tr.Op, tr.Kind, what)
 			bySig[sig]++
